@@ -306,6 +306,7 @@ func (d *Decoder) readTypedList(tag byte) (interface{}, error) {
 		}
 	}
 
+	holder.complete = true
 	return holder, nil
 }
 
@@ -371,5 +372,6 @@ func (d *Decoder) readUntypedList(tag byte) (interface{}, error) {
 		}
 	}
 
+	holder.complete = true
 	return holder, nil
 }
